@@ -1030,3 +1030,48 @@ def gen_chain_spec(rng, wdomain='real'):
         weights = {t: map_nested(w, lambda x: math.log(x) if x > 0 else -math.inf) for t, w in weights.items()}
     return dict(domains={'L0': n}, terminals={'T': ['L0', 'L0'], 'stop': ['L0'], 'init': ['L0']}, nonterminals=nts, start='S',
                 rules=rules, weights=weights, wdomain=wdomain)
+
+
+def gen_sibling_dependency_spec(rng, wdomain='real'):
+    """Non-recursive: the start rule uses 3-4 sibling nonterminals, some of which depend one-way on an EARLIER sibling that
+    is not their immediate predecessor in the dependency order (S -> A B C, C -> A c): several acyclic one-nonterminal
+    components in a row, with a dependency that skips one."""
+    k = rng.randint(3, 4)
+    unary = rng.random() < 0.5
+    typ = ['L0'] if unary else []
+    dom = rng.randint(1, 3)
+    sib = [f'N{i}' for i in range(k)]
+    terminals, weights, rules = {}, {}, []
+
+    def term():
+        t = f'f{len(terminals)}'
+        terminals[t] = list(typ)
+        w = lambda: round(rng.uniform(0.3, 2.0), 3)
+        weights[t] = [w() for _ in range(dom)] if unary else w()
+        return t
+    nodes, ext, att = (['L0'], [0], [0]) if unary else ([], [], [])
+    for i, n in enumerate(sib):
+        edges = [[term(), list(att)]]
+        if i >= 2 and rng.random() < 0.8:
+            edges.append([sib[rng.randrange(0, i - 1)], list(att)])          # skips the immediate predecessor
+        elif i >= 1 and rng.random() < 0.2:
+            edges.append([sib[i - 1], list(att)])
+        rng.shuffle(edges)
+        rules.append(dict(lhs=n, nodes=list(nodes), ext=list(ext), edges=edges))
+        if rng.random() < 0.3:
+            rules.append(dict(lhs=n, nodes=list(nodes), ext=list(ext), edges=[[term(), list(att)]]))
+    s_edges = [[n, list(att)] for n in sib] + [[term(), list(att)]]
+    if rng.random() < 0.5:
+        rng.shuffle(s_edges)
+    rules.append(dict(lhs='S', nodes=list(nodes), ext=list(ext), edges=s_edges))
+    if rng.random() < 0.5:
+        rng.shuffle(rules)
+    nts = {'S': list(typ)}
+    decl = list(sib)
+    if rng.random() < 0.5:
+        rng.shuffle(decl)
+    for n in decl:
+        nts[n] = list(typ)
+    if wdomain == 'log':
+        weights = {t: map_nested(w, math.log) for t, w in weights.items()}
+    return dict(domains={'L0': dom}, terminals=terminals, nonterminals=nts, start='S', rules=rules, weights=weights, wdomain=wdomain)
